@@ -179,6 +179,12 @@ func (f *frame) invEnv(li *loopInfo, st *State, phiTerm func(p *ssa.Phi) string)
 		}
 		if p.Comment != "" {
 			env.vars[p.Comment] = cval{term: phiTerm(p), typ: p.Type()}
+			// $entry_<name>: the value the variable had when the loop was entered
+			if ent, ok := f.loopEntry[li][p]; ok {
+				env.vars["ζentry_"+p.Comment] = cval{term: ent, typ: p.Type()}
+			} else {
+				env.vars["ζentry_"+p.Comment] = cval{term: phiTerm(p), typ: p.Type()}
+			}
 		}
 	}
 	if phi, seq, lenV := f.rangeIndexInfo(li); phi != nil {
@@ -248,6 +254,7 @@ func (f *frame) enterLoop(li *loopInfo, es []edge) (string, *State, error) {
 		f.loopEff = map[*loopInfo]*effects{}
 	}
 	f.loopEff[li] = f.loopEffects(li)
+	delete(f.loopEntry, li)
 	// 1. init obligations per entry edge
 	for i, e := range es {
 		i := i
@@ -276,6 +283,27 @@ func (f *frame) enterLoop(li *loopInfo, es []edge) (string, *State, error) {
 		}
 	}
 	// 2. havoc
+	if f.loopEntry == nil {
+		f.loopEntry = map[*loopInfo]map[*ssa.Phi]string{}
+	}
+	entryVals := map[*ssa.Phi]string{}
+	for _, in := range b.Instrs {
+		if p, ok := in.(*ssa.Phi); ok && p.Comment != "" {
+			var terms []string
+			for i := range es {
+				if idx[i] < 0 {
+					terms = append(terms, t.B.zero(p.Type()))
+				} else {
+					terms = append(terms, f.termOf(p.Edges[idx[i]]))
+				}
+			}
+			out := terms[len(terms)-1]
+			for i := len(terms) - 2; i >= 0; i-- {
+				out = ite(es[i].cond, terms[i], out)
+			}
+			entryVals[p] = out
+		}
+	}
 	cond, st := f.mergeEdges(es)
 	if f.top && f.fc != nil && f.fc.CutLoops && f.preTerm != "" {
 		// modular loop reasoning: beyond this point only the precondition, the invariants and unmodified state are known
@@ -319,6 +347,7 @@ func (f *frame) enterLoop(li *loopInfo, es []edge) (string, *State, error) {
 		mt := r.X.Type().Underlying().(*types.Map)
 		st.visited[r] = t.B.declConst(t.B.fresh("visited@loop"), "(Array "+t.B.sortOf(mt.Key())+" Bool)")
 	}
+	f.loopEntry[li] = entryVals
 	// 3. fresh phis
 	var facts []string
 	for _, in := range b.Instrs {
